@@ -236,6 +236,9 @@ def searchLoop (es : Array Entry) (id : Nat) : Nat → Int → Int → Outcome S
         else .ok (.hit e)
     else .ok (.stop n)
 
+/-- `u64::wrapping_sub` for `a, b < 2^64` -/
+def wrappingSub (a b : Nat) : Nat := if b ≤ a then a - b else a + U64 - b
+
 /-- `EntriesV3::find_tile` -/
 def findTile (l : List Entry) (id : Nat) : Outcome (Option Entry) :=
   let es := l.toArray
@@ -247,8 +250,8 @@ def findTile (l : List Entry) (id : Nat) : Outcome (Option Entry) :=
       | none => .panic
       | some e =>
         if e.run = 0 then .ok (some e)
-        else if id < e.id then .panic                      -- `tile_id - entries[n].tile_id` underflow
-        else if id - e.id < e.run then .ok (some e)
+        -- `tile_id.wrapping_sub(entries[n].tile_id)` (an unchecked `-` before /repo 662fbb3f)
+        else if wrappingSub id e.id < e.run then .ok (some e)
         else .ok none
     else .ok none
   | .err => .err
@@ -359,7 +362,7 @@ def coverRun (c : Cover) (id : Nat) : Nat → Outcome Cover
   | n + 1 =>
     match coverRun c id n with
     | .ok c' =>
-      if n + id ≥ U64 then .panic
+      if n + id ≥ U64 then .err                            -- `i.checked_add(entry.tile_id)`
       else match Hilbert.tileIdToCoordLoop (n + id) with
         | .ok (x, y, z) => .ok (c'.add x y z)
         | .err => .err
@@ -368,11 +371,10 @@ def coverRun (c : Cover) (id : Nat) : Nat → Outcome Cover
     | .panic => .panic
 
 mutual
-/-- `parse_directories` (reader.rs:127-150): recursion over leaf pointers.  The Rust recursion is
-    unbounded (a directory that points to itself overflows the stack); the model gives up with
-    `.panic` after `fuel` nested levels. -/
+/-- `parse_directories` (reader.rs:127-156): recursion over leaf pointers, `ensure!(depth < 3)`
+    (`fuel = 3 - depth`; the recursion was unbounded before /repo 662fbb3f). -/
 def coverDir (K : Inflate) (ic : TComp) (leaves : Bytes) : (fuel : Nat) → Cover → Bytes → Outcome Cover
-  | 0, _, _ => .panic
+  | 0, _, _ => .err
   | fuel + 1, c, dir =>
     match decDir dir with
     | .ok es => coverEntries K ic leaves fuel c es
@@ -410,7 +412,7 @@ def openReader (K : Inflate) (file : Bytes) : Outcome Reader := do
   let rootc ← readRange file h.root
   let root ← K.run ic rootc
   let leaves ← readRange file h.leaf
-  let cov ← coverDir K ic leaves 8 Cover.empty root
+  let cov ← coverDir K ic leaves 3 Cover.empty root
   let _ ← compOfCode h.tcomp
   pure ⟨file, h, ic, root, leaves, K, cov.filterMap id⟩
 
@@ -425,7 +427,7 @@ def lookupLoop (r : Reader) (id : Nat) : Nat → Bytes → Outcome (Option Bytes
       | .ok (some e) =>
         if e.len > 0 then
           if e.run > 0 then
-            if e.off + r.header.data.off ≥ U64 then .panic   -- `get_shifted_forward`
+            if e.off + r.header.data.off ≥ U64 then .err     -- `offset.checked_add(tile_data.offset)`
             else match readRange r.file ⟨e.off + r.header.data.off, e.len⟩ with
               | .ok b => .ok (some b)
               | .err => .err
